@@ -35,13 +35,24 @@ def _mods():
 
 USER_POOL = ['owner', 'admin', 'foo', '-foo', 'Foo', 'x[y]', '-x{y}', '#chan,op', '#chan,foo', '#chan,-foo', '#Chan,-op',
              '#other,op', 'trusted', '-bar']
-CHAN_POOL = ['foo', '-foo', 'op', 'bar', '-x{y}', 'baz']
+CHAN_POOL = ['foo', '-foo', 'op', 'bar', '-x{y}', 'baz', '#other,-foo']
 DEF_POOL = ['-owner', '-admin', 'foo', '-foo', '-bar', 'x[y]', 'baz', '-trusted']
 ASK = ['foo', '-foo', 'FOO', 'owner', '-owner', 'admin', 'bar', '-bar', 'x{y}', '-X[Y]', '#chan,foo', '#chan,-foo', '#CHAN,Foo',
        '#chan,op', '#chan,-op', '#other,foo', '#new,voice', '#new,-voice', '#chan,bar', 'baz', '-baz', 'qux', '-qux', '#chan,qux',
-       'trusted', '#chan,x[y]', '#other,-foo', 'a,b', '#c,', '-#chan,foo']
+       'trusted', '#chan,x[y]', '#other,-foo', 'a,b', '#c,', '-#chan,foo', '#chan,#other,foo']
 HOSTILE = ['', ' ', 'a b', ' a', 'a ', '-', '--x', '#c,-', '#c, x', ' ', '#c,a b', ',', '#,x', '-,', 'owner ', '- owner',
            '#' + 'c' * 49 + ',x', '#' + 'c' * 50 + ',x', '#c\x07,x', '&c,x', '!c,-x', '+c,x', 'é', '-é', '#é,É']
+
+
+def nested(c):
+    """class of finding F21: a channel capability whose capability part is itself a channel capability"""
+    ircdb, _, _ = _mods()
+    if not ircdb.isChannelCapability(c):
+        return False
+    return ircdb.isChannelCapability(ircdb.fromChannelCapability(c)[1])
+
+
+CLASSES = {'nested_channel_capability': lambda inp: 'cap' in inp and nested(inp['cap'])}
 
 
 def gen_db(rng):
